@@ -52,6 +52,10 @@ def start(vkind, n, M, V, seed):
     rnd = lambda *s: g.standard_normal(s) + (1j * g.standard_normal(s) if cplx else 0)  # noqa: E731
     if vkind == "rand":
         return rnd(n), n
+    if vkind == "lowp":  # a start vector in a narrower dtype than the operator: the decomposition is computed in the promoted dtype
+        return rnd(n).astype(np.complex64 if cplx else np.float32), n
+    if vkind == "intvec":
+        return P.ints(g, (n, ), -3, 3, nonzero=True).astype(np.int64), n
     if vkind == "batch":
         return rnd(n, 2), n
     if vkind == "batchmix":  # a vector in a 1-dimensional invariant subspace next to a generic one
@@ -79,6 +83,8 @@ def check_one(M, v, Qd, Hd, m, d_inv, bad, normA, ref_n=None):
     if not (np.all(np.isfinite(Qd)) and np.all(np.isfinite(Hd))):
         bad("nonfinite", {})
         return
+    if v is not None:
+        v = v.astype(np.complex128)  # the reference is formed in double precision whatever dtype the caller's vector has
     if v is not None and np.linalg.norm(Qd[:, 0] - v / np.linalg.norm(v)) > 1e-10:
         bad("first-column-is-not-v/|v|", {"err": float(np.linalg.norm(Qd[:, 0] - v / np.linalg.norm(v)))})
     if np.max(np.abs(np.tril(Hd, -2)), initial=0.0) > 0:
@@ -207,7 +213,9 @@ def cases(tier, seed):
         for n in small + (big if fam != "int" else []):
             ms = list(range(1, n + 4)) if n <= 6 else sorted({1, 2, 5, n, n + 1, n + 5, 1000})
             for cplx in cplxs:
-                for vk in ("rand", "inv1", "inv2", "inv3", "batch", "batchmix", "default"):
+                for vk in ("rand", "inv1", "inv2", "inv3", "batch", "batchmix", "default", "lowp", "intvec"):
+                    if vk in ("lowp", "intvec") and "@" in fam:
+                        continue
                     if vk == "batchmix" and n < 3:
                         continue
                     if fam == "int" and vk.startswith("inv") and not cplx:
